@@ -878,7 +878,33 @@ func c10N6(l *core.Ledger, r *rt) {
 				}
 			})
 			ok := f == top && edgesDominate(top, errEdges, sx.NodeOf(in))
-			l.Check(ok, "C10-N6", key, sx.PosOf(in), "only on the reader's own read-error edge", "the reader fails every pending call on a path that is not the error edge of its RecvMsg")
+			if !ok && f == top {
+				// the reader's last act: the node's own context has ended (Close) and the
+				// reader returns without reading again - there is no reconnection any more
+				var doneEdges []sx.Edge
+				sx.AllInstrs(top, func(_ sx.Node, in2 ssa.Instruction) {
+					sel, isSel := in2.(*ssa.Select)
+					if !isSel {
+						return
+					}
+					for i, st := range sel.States {
+						if st.Dir != types.RecvOnly {
+							continue
+						}
+						if cv, isDone := isDoneOf(st.Chan); isDone && isParentCtx(cv) {
+							if e, found := selectCaseEdge(sel, i); found {
+								doneEdges = append(doneEdges, e)
+							}
+						}
+					}
+				})
+				_, readsAgain := sx.Reach(sx.NodeOf(in), sx.IsInstr(rc), sx.Query{})
+				if edgesDominate(top, doneEdges, sx.NodeOf(in)) && !readsAgain {
+					l.OK("C10-N6", key, sx.PosOf(in), "on the reader's way out after the node's context has ended (no reconnection follows)")
+					return
+				}
+			}
+			l.Check(ok, "C10-N6", key, sx.PosOf(in), "only on the reader's own read-error edge", "the reader fails every pending call on a path that is neither the error edge of its RecvMsg nor its exit after the node's context has ended")
 		})
 	}
 	for f := range cancelFns {
